@@ -15,9 +15,15 @@ def ids_of(elem):
     return [id(e) for e in elem.iter()]
 
 
+VIA = ['add']          # the entry point the histories of this family use: `ro + msg`, or `msg.merge(ro)` directly
+
+
 def merge(ro, mo):
     from . import impl
-    return impl.add(ro, mo)
+    via = VIA[0]
+    if via == 'merge' and ro.completed:
+        via = 'add'        # (on a completed running order only `+` refuses: the direct call is for open ones)
+    return impl.add(ro, mo, via=via)
 
 
 def inspect_quietly(mo):
@@ -379,10 +385,18 @@ def run_c13(tier, seed):
             except Exception:  # noqa: BLE001 - the strict merge is meant to fail at message 3
                 pass
     targeted(oc, when=' (after a strict collection merge failed earlier in the process)')
+    # ... and through the other entry point, msg.merge(ro), which `+` itself calls
+    VIA[0] = 'merge'
+    try:
+        targeted(oc, when=' (messages applied with msg.merge(ro))')
+    finally:
+        VIA[0] = 'add'
     oc.extra['pairs'] = []
     n_hist = 80 if tier == 'quick' else 6000
     for k in range(n_hist):
         monitor_history(oc, seed * 9973 + 37 * k, tier)
+    from . import coll_family
+    coll_family.reuse_and_remerge_check(oc, 'C13')
     pairs = oc.extra.pop('pairs')
     fresh_process_check(oc, pairs if tier == 'quick' else pairs[:20000])
     oc.extra['monitor'] = ('after every step: id()-sets of the running order, of a second running order fed the same message '
